@@ -25,6 +25,9 @@ type RTCase struct {
 	SID    string   `json:"sid,omitempty"`
 	Ints   []string `json:"ints,omitempty"`
 	Bits   string   `json:"bits,omitempty"`
+	// Cut selects one more truncation point of the value's encoding
+	// (Cut mod length) besides the fixed ones, see truncations.
+	Cut int `json:"cut,omitempty"`
 }
 
 func init() { ev.Register("roundtrip", runRoundTrip) }
@@ -242,6 +245,7 @@ func genRoundTripCase(t *rapid.T) RTCase {
 		w = []int{4, 6, 2, 1} // 256 point decompressions per decode
 	}
 	cs.Curve = drawCurve(t, w)
+	cs.Cut = rapid.IntRange(0, 1<<20).Draw(t, "cut")
 	if rapid.IntRange(0, 3).Draw(t, "fromRun") == 0 {
 		cs.Source = "run"
 		cs.Seed = uint64(rapid.IntRange(0, baseSeeds(cs.Curve, ev.Get(prop).Thorough())-1).Draw(t, "baseSeed"))
@@ -286,9 +290,12 @@ func runRoundTrip(cs RTCase) ev.Outcome {
 			return ev.Fail("base-run/failed", "%v", err)
 		}
 	}
-	_, _, sig, msg := roundTrip(cs.Kind, c, v)
+	_, enc, sig, msg := roundTrip(cs.Kind, c, v)
 	if sig != "" {
 		return ev.Fail("roundtrip/"+sig, "%s (%s, source %s)", msg, cs.Curve, cs.Source)
+	}
+	if o := truncations(cs.Kind, c, enc, cs.Cut); o != nil {
+		return *o
 	}
 	classes := []string{"kind=" + cs.Kind, "curve=" + cs.Curve, "source=" + cs.Source, cs.Kind + "/" + cs.Curve}
 	if cs.Source == "synthetic" {
@@ -305,4 +312,39 @@ func runRoundTrip(cs RTCase) ev.Outcome {
 
 func TestRoundTrip(t *testing.T) {
 	ev.Check(t, ev.Get(prop), "roundtrip", genRoundTripCase, runRoundTrip)
+}
+
+// truncations: the encoding of the value that just round-tripped, cut to 0, 1,
+// 2, 3 bytes, one byte short, cut at a drawn point and with one byte appended,
+// must be refused with an error.  Every input is handed over as an
+// exact-capacity allocation (nil and empty for no bytes, see safeDecode).
+func truncations(kind string, c elliptic.Curve, enc []byte, cut int) *ev.Outcome {
+	if cut < 0 {
+		cut = -cut
+	}
+	keeps := []int{0, 1, 2, 3, len(enc) - 1, cut % len(enc), len(enc) + 1}
+	for _, k := range keeps {
+		var data []byte
+		if k <= len(enc) {
+			data = enc[:k]
+		} else {
+			data = append(append(make([]byte, 0, k), enc...), byte(cut))
+		}
+		_, err, psig, pmsg := safeDecode(kind, c, data)
+		if psig != "" {
+			o := ev.Fail(psig, "Decode(%s, %s) of the first %d bytes of a %d-byte encoding that round-trips: %s",
+				kind, c.Params().Name, k, len(enc), pmsg)
+			return &o
+		}
+		if err == nil {
+			what := "short-input-accepted"
+			if k > len(enc) {
+				what = "trailing-bytes-accepted"
+			}
+			o := ev.Fail("decode/"+kind+"/"+what, "Decode(%s, %s) accepted %d bytes of a %d-byte encoding (documented size %d)",
+				kind, c.Params().Name, k, len(enc), wantLen(kind, c))
+			return &o
+		}
+	}
+	return nil
 }
